@@ -4,7 +4,7 @@ use bytes::Bytes;
 use nom::{Parser, multi::length_data};
 
 use crate::{
-    cid::{ConnectionId, WriteConnectionId},
+    cid::{ConnectionId, WriteConnectionId, be_connection_id_with_len},
     error::QuicError,
     param::{
         core::{ParameterId, ParameterValue, ParameterValueType, Parameters, ServerParameters},
@@ -50,10 +50,11 @@ pub fn be_parameter_value(input: &[u8], id: ParameterId) -> nom::IResult<&[u8], 
         ParameterValueType::ResetToken => {
             map(be_reset_token, ParameterValue::ResetToken).parse(input)
         }
-        ParameterValueType::ConnectionId => Ok((
-            &[],
-            ParameterValue::ConnectionId(ConnectionId::from_slice(input)),
-        )),
+        // a connection ID longer than 20 bytes is an error, not a panic
+        ParameterValueType::ConnectionId => {
+            let (remain, cid) = be_connection_id_with_len(input, input.len())?;
+            Ok((remain, ParameterValue::ConnectionId(cid)))
+        }
         ParameterValueType::PreferredAddress => {
             map(be_preferred_address, ParameterValue::PreferredAddress).parse(input)
         }
@@ -145,11 +146,14 @@ impl<Role, T: bytes::BufMut> WriteParameters<Role> for T {
 }
 
 fn handle_nom_error<F: Debug, E: Debug>(input: &[u8], nom_error: nom::Err<F, E>) -> Error {
-    assert!(
-        matches!(nom_error, nom::Err::Incomplete(..)),
-        "Only incomplete errors should occur, but {nom_error:?} happened for input: {input:?}"
-    );
-    Error::IncompleteParameterId(format!("incomplete parameter data for input: {input:?}"))
+    Error::IncompleteParameterId(format!(
+        "incomplete parameter data ({nom_error:?}) for input: {input:?}"
+    ))
+}
+
+/// The value of a parameter sent by the peer is truncated, malformed, or longer than its type allows.
+fn malformed_value(id: ParameterId, value: &[u8], reason: impl Debug) -> Error {
+    Error::IncompleteValue(id, format!("{reason:?} for value: {value:?}"))
 }
 
 impl<R: IntoRole + RequiredParameters + Default> Parameters<R> {
@@ -170,9 +174,12 @@ impl<R: IntoRole + RequiredParameters + Default> Parameters<R> {
             };
 
             ParameterId::belong_to(param_id, R::into_role())?;
-            let (remain, param_value) = be_parameter_value(param_value, param_id)
-                .map_err(|nom_error| handle_nom_error(param_value, nom_error))?;
-            assert!(remain.is_empty(), "Parameter value should consume all data");
+            let raw_value = param_value;
+            let (remain, param_value) = be_parameter_value(raw_value, param_id)
+                .map_err(|nom_error| malformed_value(param_id, raw_value, nom_error))?;
+            if !remain.is_empty() {
+                return Err(malformed_value(param_id, raw_value, "trailing bytes").into());
+            }
 
             parameters.set(param_id, param_value)?;
         }
@@ -203,9 +210,12 @@ impl ServerParameters {
             };
 
             ParameterId::belong_to(param_id, Role::Server)?;
-            let (remain, param_value) = be_parameter_value(param_value, param_id)
-                .map_err(|nom_error| handle_nom_error(param_value, nom_error))?;
-            assert!(remain.is_empty(), "Parameter value should consume all data");
+            let raw_value = param_value;
+            let (remain, param_value) = be_parameter_value(raw_value, param_id)
+                .map_err(|nom_error| malformed_value(param_id, raw_value, nom_error))?;
+            if !remain.is_empty() {
+                return Err(malformed_value(param_id, raw_value, "trailing bytes").into());
+            }
 
             parameters.set(param_id, param_value)?;
         }
